@@ -30,7 +30,8 @@ theorem C01_table_correct (c : Bridge.Ctx) (m : MethodC) (mr : MethodRec) (hm : 
     (hloc : Cells.LocatedAll c.g m 0 m.vp cs gis) :
     ∃ cell conc,
       (dispatchMethod c.g m).table[TableProofs.offset (dispatchMethod c.g m).groups.reverse gis.reverse]? = some (cell, conc) ∧
-      Selects c.proj c.reg mr.defs ks (Bridge.outcomeOf mr.defs cell) :=
+      Selects c.proj c.reg mr.defs ks (Bridge.outcomeOf mr.defs cell) ∧
+      (∀ i, cell = .defn i → ∃ df, mr.defs[i]? = some df) :=
   Bridge.dispatch_table_correct c m mr hm cs ks gis hk hloc
 
 /-- every acceptable class has a group, so the theorem above covers every legal call -/
